@@ -106,6 +106,9 @@ class C15(Check):
                 if r.get("skipped"):
                     continue
                 obs = j["args"]["obs"].split(":")[0]
+                if not r["ok"] and r.get("timeout"):
+                    stats["timeouts_inconclusive"] = stats.get("timeouts_inconclusive", 0) + 1
+                    continue
                 if not r["ok"]:
                     stats["crashes"] += 1
                     cls = simdrv.classify_crash(r)
